@@ -81,4 +81,13 @@ theorem retain_fault (dr mut_ : Bool) (keep : Nat → Bool) (k : Nat) (hc : c.lo
   rw [Gen.retain_eq dr mut_ keep (some k) hc] at hp ⊢
   exact C16.retain_fault dr keep k hc hp
 
+/-- … and when the callback also writes -/
+theorem retain_fault_w (dr mut_ : Bool) (keep : Nat → Bool) (k : Nat) (touch : Nat → Nat → Option (Nat × Nat)) (hc : c.lock n)
+    (hp : (Gen.retain dr mut_ c keep (some k) touch).panicked = true) :
+    (Gen.retain dr mut_ c keep (some k) touch).st.lock n ∧ c.same (Gen.retain dr mut_ c keep (some k) touch).st ∧
+    ((Gen.retain dr mut_ c keep (some k) touch).st.flat ++ (Gen.retain dr mut_ c keep (some k) touch).ev.drops).Perm
+      (c.flat ++ (Gen.retain dr mut_ c keep (some k) touch).made) := by
+  rw [Gen.retain_eq_w dr mut_ keep (some k) touch hc] at hp ⊢
+  exact C16.retain_fault_w dr keep k touch hc hp
+
 end Soa.Extr
